@@ -339,7 +339,22 @@ class PureInterp:
         elif isinstance(st, (ast.FunctionDef, ast.AsyncFunctionDef)):
             fi = getattr(st, "_finfo", None)
             if fi is not None:
-                env[st.name] = ("closure", fi, env)
+                val = ("closure", fi, env)
+                for d in reversed(st.decorator_list):
+                    dc = d.func if isinstance(d, ast.Call) else d
+                    canon = self.index.canon(dc, module) if isinstance(dc, (ast.Name, ast.Attribute)) else None
+                    if canon in ("functools.lru_cache", "functools.cache"):
+                        maxsize = None if canon == "functools.cache" else 128
+                        if isinstance(d, ast.Call):
+                            margs = list(d.args) + [k.value for k in d.keywords if k.arg == "maxsize"]
+                            if margs:
+                                maxsize = self.eval(margs[0], env, module, depth)
+                        val = ("memo", val, {}, maxsize)
+                    elif canon in ("functools.wraps",):
+                        pass
+                    else:
+                        raise Unsupported(f"decorator {ast.unparse(d)[:40]} on a nested function")
+                env[st.name] = val
             return
         elif isinstance(st, ast.Assert):
             try:
@@ -380,6 +395,12 @@ class PureInterp:
                 raise Unsupported("attribute store")
         else:
             raise Unsupported("assignment target")
+
+    def _pycallable(self, v, depth):
+        """Interpreter-level callables (lambdas, closures, repo functions) wrapped for host builtins such as sorted(key=...)."""
+        if isinstance(v, FuncInfo) or (isinstance(v, tuple) and v and v[0] in ("lambda", "closure", "bound", "memo")):
+            return lambda *a, **k: self.apply(v, list(a), k, depth)
+        return v
 
     def _dunder(self, obj, name):
         """The repo-defined special method of a symbolic object's class, if any."""
@@ -674,6 +695,20 @@ class PureInterp:
             return self.hooks["attr:" + f[1]](f[2], *args, **kwargs)
         if isinstance(f, tuple) and f and f[0] == "closure":
             return self.call(f[1], args, kwargs, depth=depth + 1, closure=f[2])
+        if isinstance(f, tuple) and f and f[0] == "memodeco":
+            return ("memo", args[0], {}, f[1])
+        if isinstance(f, tuple) and f and f[0] == "memo":
+            _tag, inner, cache, maxsize = f
+            key = (tuple(args), tuple(sorted(kwargs.items())))
+            if key in cache:
+                v = cache.pop(key)
+                cache[key] = v  # most recently used
+                return v
+            v = self.apply(inner, args, kwargs, depth, node)
+            cache[key] = v
+            if maxsize is not None and len(cache) > maxsize:
+                cache.pop(next(iter(cache)))
+            return v
         if isinstance(f, tuple) and f and f[0] == "method":
             recv, name = f[1], f[2]
             for typ, names in SAFE_METHODS.items():
@@ -720,9 +755,16 @@ class PureInterp:
                 fn = PURE_BUILTINS.get(b)
                 if fn is not None:
                     try:
+                        kwargs = {k: self._pycallable(v, depth) for k, v in kwargs.items()}
                         return fn(*args, **kwargs)
                     except (ValueError, TypeError) as exc:
                         raise Raised(type(exc).__name__, str(exc))
+            if name in ("functools.lru_cache", "functools.cache"):
+                is_fn = lambda v: isinstance(v, FuncInfo) or (isinstance(v, tuple) and v and v[0] in ("closure", "lambda", "bound"))
+                if args and is_fn(args[0]):
+                    return ("memo", args[0], {}, None if name.endswith(".cache") else 128)
+                ms = kwargs.get("maxsize", args[0] if args else 128)
+                return ("memodeco", ms)
             if name in PURE_EXTERNAL:
                 try:
                     return PURE_EXTERNAL[name](*args, **kwargs)
@@ -742,9 +784,13 @@ class PureInterp:
             else:
                 self._bind_fields(o, f, args, kwargs)
             return o
+        if callable(f) and not isinstance(f, (FuncInfo, ClassInfo, FuncRef, Obj)):
+            return f(*args, **kwargs)  # a recording hook handed in as a value (status_func, submit_func, ...)
         if isinstance(f, tuple) and f and f[0] == "lambda":
             lam = f[1]
-            e = dict(zip([a.arg for a in lam.args.args], args))
+            e = dict(f[3]) if len(f) > 3 and f[3] else {}
+            e.update(zip([a.arg for a in lam.args.args], args))
+            e.update({k: v for k, v in kwargs.items() if k in [a.arg for a in lam.args.args]})
             return self.eval(lam.body, e, f[2], depth)
         raise Unsupported(f"call of {type(f).__name__}")
 
@@ -784,7 +830,7 @@ class PureInterp:
         return self.eval(n.value, env, module, depth)
 
     def e_Lambda(self, n, env, module, depth):
-        return ("lambda", n, module)
+        return ("lambda", n, module, env)
 
     def _isinstance(self, v, t):
         names = [t] if not isinstance(t, (tuple, list)) else list(t)
